@@ -222,6 +222,7 @@ end generic
 
 inductive Op where
   | eq | ne | gt | ge | lt | le
+  | contains | notContains | startsWith | endsWith | matches | isIn
 deriving Repr, DecidableEq
 
 /-- the scalar `Value`s of the typed core: `Integer(i)`, `Number(i as f64)` for an *integral* float (never a
@@ -251,6 +252,32 @@ def Val.toNumber? : Val → Option Int
   | .str s => strNum? s
   | .bool _ => none
 
+/-- the arithmetic operators of `expression::apply_operator` that the case grammar writes (`/` and `%` are not used) -/
+inductive AOp where
+  | add | sub | mul
+deriving Repr, DecidableEq
+
+def AOp.sym : AOp → String
+  | .add => "+" | .sub => "-" | .mul => "*"
+
+def AOp.ap : AOp → Int → Int → Int
+  | .add, a, b => a + b
+  | .sub, a, b => a - b
+  | .mul, a, b => a * b
+
+/-- the text of a `Value::Expression` right-hand side — what the GRL parser makes of a right-hand side that names a
+field (`a > b`, `a > U.x`) or computes with one (`a > b + 1`): a bare field name, or `name op k` with an unsigned
+integer literal `k` (one operator: no precedence question arises) -/
+inductive Rhs where
+  | ref (name : String)
+  | arith (name : String) (op : AOp) (k : Nat)
+deriving Repr, DecidableEq
+
+/-- the expression string itself -/
+def Rhs.text : Rhs → String
+  | .ref n => n
+  | .arith n o k => n ++ o.sym ++ toString k
+
 /-- `ConditionGroup` restricted to `Single(field op scalar-literal)` (integer, integral float or boolean literal),
 `Single(field op string-literal)` (`leafRef`: a `Value::String`, which the evaluator first tries to resolve as the
 name of a field), `Compound`, `Not`; `xnot` is `Compound { operator: LogicalOperator::Not }`, which the parallel
@@ -258,17 +285,19 @@ evaluator answers `false` -/
 inductive Cond where
   | leaf (field : String) (op : Op) (lit : Val)
   | leafRef (field : String) (op : Op) (other : String)
+  | leafExpr (field : String) (op : Op) (rhs : Rhs)
   | and (l r : Cond)
   | or (l r : Cond)
   | not (c : Cond)
   | xnot (l r : Cond)
 deriving Repr, DecidableEq
 
-/-- `ActionType` without `Custom` (no function is registered in the typed core) -/
+/-- `ActionType`; `Custom` only with no function registered under its name (no function is registered in the typed core) -/
 inductive Action where
   | set (field : String) (value : Int)
   | methodCall | log | retract | activateAgendaGroup | scheduleRule | completeWorkflow
   | setWorkflowData | append
+  | customUnregistered     -- `Custom { action_type }` with no function of that name registered: `Ok(())`
 deriving Repr, DecidableEq
 
 /-- scalar-valued facts keyed by path.  A key `U.x` is field `x` of the object fact `U` (a plain name is the top-level
@@ -290,6 +319,45 @@ def lookup (f : Facts) (k : String) : Option Val :=
     | some p => some p.2
     | none => none
 
+/-- a field reference inside `expression::evaluate_expression`: `facts.get(expr).or_else(|| facts.get_nested(expr))` —
+the FLAT key first, the nested path second: the opposite order of `lookup` -/
+def lookupFlatFirst (f : Facts) (k : String) : Option Val :=
+  match f.find? (fun p => p.1 == flatKey k) with
+  | some p => some p.2
+  | none =>
+    match f.find? (fun p => p.1 == k) with
+    | some p => some p.2
+    | none => none
+
+/-- `expression::apply_operator(v, op, Integer(k))` for `+ - *`: both operands through `value_to_number` (a numeric
+string counts as its number; a boolean or any other string is an error — `+` concatenates only two strings); the
+result is `Integer` iff both operands were `Integer`s, otherwise `Number` -/
+def applyArith (v : Val) (o : AOp) (k : Nat) : Option Val :=
+  match v with
+  | .int i => some (.int (o.ap i k))
+  | .num i => some (.num (o.ap i k))
+  | .str s => (strNum? s).map fun i => .num (o.ap i k)
+  | .bool _ => none
+
+/-- `expression::evaluate_expression(text, facts)`; `none` = `Err` (field not found / operand not numeric) -/
+def Rhs.eval? (f : Facts) : Rhs → Option Val
+  | .ref n => lookupFlatFirst f n
+  | .arith n o k =>
+    match lookupFlatFirst f n with
+    | some v => applyArith v o k
+    | none => none
+
+/-- `l.contains(r)` on the characters -/
+def infixB (p : List Char) : List Char → Bool
+  | [] => p.isEmpty
+  | c :: cs => p.isPrefixOf (c :: cs) || infixB p cs
+
+/-- the string arms of `Operator::evaluate`: both sides through `as_string_ref`, otherwise `false` -/
+def strCmp (p : List Char → List Char → Bool) (a b : Val) : Bool :=
+  match a, b with
+  | .str x, .str y => p x.toList y.toList
+  | _, _ => false
+
 /-- the ordering arms of `Operator::evaluate`: both sides through `to_number`, otherwise `false` -/
 def numCmp (p : Int → Int → Bool) (a b : Val) : Bool :=
   match a.toNumber?, b.toNumber? with
@@ -307,6 +375,18 @@ def Op.eval : Op → Val → Val → Bool
   | .ge, a, b => numCmp (fun x y => decide (y ≤ x)) a b
   | .lt, a, b => numCmp (fun x y => decide (x < y)) a b
   | .le, a, b => numCmp (fun x y => decide (x ≤ y)) a b
+  | .contains, a, b => strCmp (fun l r => infixB r l) a b
+  | .notContains, a, b => strCmp (fun l r => !infixB r l) a b
+  | .startsWith, a, b => strCmp (fun l r => r.isPrefixOf l) a b
+  | .endsWith, a, b => strCmp (fun l r => r.reverse.isPrefixOf l.reverse) a b
+  | .matches, a, b => strCmp (fun l r => infixB r l) a b      -- "just use contains as a simple match"
+  | .isIn, _, _ => false                                       -- the right-hand side is never a `Value::Array` here
+
+/-- `Operator::evaluate(v, Value::Expression(_))` for a scalar `v`: the derived `PartialEq` says "different", the
+expression has no number, no string and is no array -/
+def Op.evalVsExpr : Op → Bool
+  | .ne => true
+  | _ => false
 
 /-- `evaluate_rule_conditions` / `evaluate_single_condition` (a missing field ⇒ `false`) -/
 def Cond.eval : Cond → Facts → Bool
@@ -322,6 +402,18 @@ def Cond.eval : Cond → Facts → Bool
       match lookup f other with
       | some w => op.eval v w
       | none => op.eval v (.str other)
+    | none => false
+  | .leafExpr fld op rhs, f =>
+    -- `Value::Expression(expr)`: `evaluate_expression(expr, facts)`; on `Err` the whole text is looked up as a field
+    -- name (nested first), and failing that the comparison is made with the `Value::Expression` itself
+    match lookup f fld with
+    | some v =>
+      match rhs.eval? f with
+      | some w => op.eval v w
+      | none =>
+        match lookup f rhs.text with
+        | some w => op.eval v w
+        | none => op.evalVsExpr
     | none => false
   | .and l r, f => l.eval f && r.eval f
   | .or l r, f => l.eval f || r.eval f
@@ -339,6 +431,7 @@ def Action.effect : Action → Facts → Facts
   | .completeWorkflow, f => f
   | .setWorkflowData, f => f
   | .append, f => f
+  | .customUnregistered, f => f    -- `functions_guard.get(action_type)` is `None`: nothing is called
 
 def coreSem : Sem Cond Action Facts :=
   { verdict := fun r f => r.cond.eval f, evalEffect := fun _ f => f, actEffect := Action.effect }
